@@ -181,6 +181,32 @@ pub fn compile_pattern(p: &PatSpec, ignore_case: bool) -> String {
 fn gen_pattern(rng: &mut Rng, pool: &mut Vec<(PatSpec, Vec<String>, Vec<String>)>, heavy: bool) {
     // at most one heavy expression per pattern and two heavy patterns per run
     let mut heavy = heavy && pool.iter().filter(|(p, _, _)| p.markers.iter().any(|(_, r)| HEAVY_MARKERS.iter().any(|h| h.regex == r))).count() < 2;
+    // one pattern in ten is an existing one with the case of one letter of its leading literal flipped: two patterns
+    // that are equal but for ASCII case are two patterns, also in a case-insensitive tree
+    if !pool.is_empty() && rng.chance(1, 10) {
+        let (base, bhits, bmisses) = pool[rng.below(pool.len())].clone();
+        let lead = base.template.split('@').next().unwrap_or("").to_string();
+        let letters: Vec<usize> = lead.char_indices().filter(|(_, c)| c.is_ascii_alphabetic()).map(|(i, _)| i).collect();
+        if !letters.is_empty() {
+            let at = letters[rng.below(letters.len())];
+            let flip = |s: &str| -> String {
+                s.char_indices()
+                    .map(|(i, c)| if i == at { if c.is_ascii_lowercase() { c.to_ascii_uppercase() } else { c.to_ascii_lowercase() } } else { c })
+                    .collect()
+            };
+            let v = PatSpec {
+                template: flip(&base.template),
+                markers: base.markers.clone(),
+            };
+            if !pool.iter().any(|(p, _, _)| p.template == v.template && p.markers == v.markers) {
+                // its hits are the base's hits with the same letter flipped (the leading literal comes first in every hit)
+                let mut hits: Vec<String> = bhits.iter().filter(|h| h.len() > at && h.is_char_boundary(at) && h.is_char_boundary(at + 1)).map(|h| flip(h)).collect();
+                hits.extend(bhits.iter().take(2).cloned());
+                pool.push((v, hits, bmisses));
+                return;
+            }
+        }
+    }
     // template = literal (marker literal)*, sharing prefixes with earlier templates half of the time
     let mut template = String::new();
     let mut markers: Vec<(String, String)> = Vec::new();
@@ -294,7 +320,7 @@ impl World for W3 {
         // about one short run in 300 may use expressions with a large compiled program (each lookup of an uncached tree
         // rebuilds them: such a run costs seconds)
         let heavy = rng.chance(1, 300);
-        let npat = if heavy { npat.min(5) } else { npat };
+        let npat = if heavy { npat.min(3) } else { npat };
         for _ in 0..npat {
             gen_pattern(rng, &mut pool, heavy);
         }
@@ -324,12 +350,38 @@ impl World for W3 {
         probes.sort();
         probes.dedup();
         rng.shuffle(&mut probes);
-        probes.truncate(if heavy { 8 } else if tier == Tier::Quick { 14 } else { 24 });
+        if heavy {
+            // the strings the heavy patterns accept come first: they are what the run is about
+            let is_heavy = |p: &PatSpec| p.markers.iter().any(|(_, r)| HEAVY_MARKERS.iter().any(|h| h.regex == r));
+            let mut first: Vec<String> = pool.iter().filter(|(p, _, _)| is_heavy(p)).flat_map(|(_, hits, _)| hits.iter().take(2).cloned()).collect();
+            first.retain(|h| probes.contains(h));
+            probes.retain(|p| !first.contains(p));
+            first.extend(probes.drain(..));
+            probes = first;
+        }
+        probes.truncate(if heavy { 5 } else if tier == Tier::Quick { 14 } else { 24 });
 
-        let nops = if heavy { rng.range(2, 6) } else { rng.range(npat, (npat * 3).min(60)) };
+        let nops = if heavy { rng.range(0, 2) } else { rng.range(npat, (npat * 3).min(60)) };
         let mut ops = Vec::new();
         let mut live: Vec<(usize, String)> = Vec::new();
         let mut next_id = 0usize;
+        if heavy {
+            // a heavy run is short and to the point: every pattern stored, a warm-up somewhere in between that reaches
+            // everything, then at most two more operations
+            let warm_at = rng.below(pool.len() + 1);
+            for pat in 0..pool.len() {
+                if pat == warm_at {
+                    ops.push(Op::Cache { limit: 1000, level: None });
+                }
+                let id = format!("r{next_id}");
+                next_id += 1;
+                live.push((pat, id.clone()));
+                ops.push(Op::Insert { pat, id });
+            }
+            if warm_at == pool.len() || rng.coin() {
+                ops.push(Op::Cache { limit: *rng.pick(&[1u64, 2, 1000]), level: *rng.pick(&[None, Some(1), Some(7)]) });
+            }
+        }
         let cache_heavy = mode == "cache";
         for _ in 0..nops {
             let w = rng.weighted(&[10, 4, 1, if cache_heavy { 6 } else { 2 }, 1, 1, 2]);
